@@ -708,14 +708,17 @@ def parse_callee(path):
     else:
         segs = top_level_split(path, '::')
     out = []
+    ty_gen = ()
     for s in segs:
         if s.startswith('<impl '):
             out.append(strip_generics(s[6:-1].strip()) if not s[6:-1].strip().startswith('[') else '[]')
         elif s.startswith('<'):
             gen = tuple(x.strip() for x in top_level_split(s[1:-1], ', '))
         else:
+            ty_gen = gen          # generics of the segment before this one (the type for `Type::<..>::method`)
             gen = ()
             out.append(s)
+    parse_callee.last_type_generics = ty_gen
     return self_ty, trait, out, gen
 
 
@@ -1076,7 +1079,9 @@ class Engine:
             if b is not None:
                 # keep the caller's substitution for generic impls (Parser<T>)
                 return CallTarget('mir', body=b, tsubst=dict(tsubst), raw=path)
-            return CallTarget('std', key='%s::%s' % (tyb, method), self_ty=segs[-2], generics=gen, raw=path)
+            tg = parse_callee.last_type_generics
+            full = segs[-2] + ('<' + ', '.join(tg) + '>' if tg else '')
+            return CallTarget('std', key='%s::%s' % (tyb, method), self_ty=full, generics=gen, raw=path)
         b = self.p.by_name.get(method)
         if b is not None:
             return CallTarget('mir', body=b, tsubst={}, raw=path)
